@@ -62,7 +62,8 @@ class C05(Machine):
                    "write_cut_acknowledged", "write_cut_raised",
                    "load_of_cut_file_raised", "format_chain",
                    "sparse_with_stored_zeros",
-                   "source_perturbed_after_derivation")
+                   "source_perturbed_after_derivation",
+                   "igraph_edges_unsorted")
     faults_na = ("message_loss", "message_duplication", "partition",
                  "process_crash", "clock_skew", "bit_flips_after_save")
     real_vs_stub = {"real": ["Network/SpatialNetwork/GeoNetwork/"
@@ -115,6 +116,8 @@ class C05(Machine):
                 op["fmt"] = o.choice(FORMATS)
                 if fault:
                     op["cut"] = f.choice((0, 1, 10, 60, 200, 500, 1500, 4000))
+            elif k == "from_igraph":
+                op["eseed"] = o.choice((None, o.randrange(10 ** 9)))
             elif k == "set_link_attribute":
                 op["name"] = o.choice(("w", "w2", "link_w"))
                 op["s"] = o.randrange(10 ** 9)
@@ -347,6 +350,17 @@ class C05(Machine):
             return new
         if k == "from_igraph":
             e = edges_of(m.A, m.directed)
+            if op.get("eseed") is not None and len(e) > 1:
+                # an igraph object whose edges are in no particular order
+                # (and, if undirected, in either orientation)
+                rr = random.Random(op["eseed"])
+                e = [tuple(x) for x in e]
+                rr.shuffle(e)
+                if not m.directed:
+                    e = [x if rr.random() < 0.5 else (x[1], x[0])
+                         for x in e]
+                e = np.array(e)
+                self._R.probe("igraph_edges_unsorted")
             gr = igraph.Graph(n=m.n, edges=[tuple(map(int, x)) for x in e],
                               directed=m.directed)
             if m.w is not None:
